@@ -101,7 +101,7 @@ def check(ctx):
     # ---------------------------------------------------------------- (a) model checking of the design module
     import time
     t_phase = time.time()
-    mc = ["free_quick", "free2_quick", "kfwitness"] if quick else ["free_thorough", "free2_thorough", "refresh", "fix_thorough", "live"]
+    mc = ["free_quick", "free2_quick", "kfwitness"] if quick else ["free_thorough", "free_timer", "free2_thorough", "refresh", "fix_thorough", "kfwitness", "live"]
     kf_states = 0
     for name in mc:
         res = c.tlc_must_pass(ctx, name, "RemoteLc.tla", "RemoteLc_%s.cfg" % name, timeout=3000)
@@ -203,8 +203,17 @@ def check(ctx):
             paths["several_fileinfo_frames"] += 1
         if h.get("paused"):
             paths["pause_resume_during_parsing"] += 1
+        if h.get("sorted"):
+            paths["opened_with_time_sorting"] += 1
         if h["n"] > 100000:
             paths["more_than_100000_messages"] += 1
+            last_fi = 0
+            for e in evs:
+                if e["ev"] == "fi":
+                    last_fi = e["nr"]
+                elif e["ev"] == "lcs" and 100000 < last_fi < h["n"]:
+                    paths["lifecycle_frame_between_100000_messages_and_end"] += 1     # regular refresh cadence of the detector
+                    break
         if h["how"] != "finished":
             paths["idle_by_fallback_" + h["how"]] += 1
         ids_final = {r["id"] for r in h["final"]}
@@ -224,7 +233,8 @@ def check(ctx):
     ctx.extra.update({
         "tlc_behaviours_emitted": nlines, "tlc_cases": ncases_tlc, "tlc_behaviours_with_known_finding": kf_predicted,
         "random_files": nrand, "replayed": info["replayed"], "fast_path": info["fast_path"], "slow_path": info["slow_path"],
-        "drift": info["drift"], "predicted_contract_violation": info["predicted_contract_violation"],
+        "drift": info["drift"], "drift_only_in_batching": info["drift"] - info["drift_final"], "drift_in_final_observables": info["drift_final"],
+        "predicted_contract_violation": info["predicted_contract_violation"],
         "frames_received": info["frames"], "lifecycle_frames": info["lcs_frames"], "messages_in_files": info["messages"],
         "server_panics": info["panics"], "server_exit": info["server_exit"], "kf_switches": sw, "path_hits": dict(sorted(paths.items())),
     })
@@ -248,11 +258,11 @@ def check(ctx):
     if not ctx.violations:            # tool-level sanity only when there is no verdict to report (never masks a violation)
         needed = ["several_lifecycle_frames", "frame_with_several_lifecycles", "control_only_lifecycle_not_listed", "resumed_lifecycle",
                   "several_ecus", "three_or_more_lifecycles", "listed_lifecycle_updated", "case_src_random", "case_src_tlc", "software_version",
-                  "message_without_extended_header", "pause_resume_during_parsing"]
+                  "message_without_extended_header", "pause_resume_during_parsing", "opened_with_time_sorting"]
         if sw["KF_X05_RemovedLcStaysListed"]:
             needed.append("announced_lifecycle_not_in_final_table")
         if not quick:
-            needed += ["more_than_100000_messages", "several_statistics_frames", "resumed_start_adjusted_1us"]
+            needed += ["more_than_100000_messages", "several_statistics_frames", "resumed_start_adjusted_1us", "lifecycle_frame_between_100000_messages_and_end"]
         missing = [n for n in needed if paths[n] == 0]
         if missing:
             raise c.ToolError("vacuity: paths never hit: %s" % missing)
